@@ -61,6 +61,7 @@ class FnContract:
         self.rewrites = []  # (rule, old, new, count, line)
         self.proofs_after = []  # (method name, proof text): inserted after the statement calling .method(
         self.asserts = []  # (method name, Clause): proof assertion after the statement calling .method(
+        self.asserts_before = []  # (method name, Clause): proof assertion before the statement / tail expression calling .method(
         self.loops = {}
         self.closures = {}
         self.used = False
@@ -113,6 +114,10 @@ def _parse_simple(path, lines):
                 m = re.match(r"(\S+)\s+(.*)$", text.strip(), re.S)
                 cl = _clause("assert", m.group(2), fc.tags, ln)
                 fc.asserts.append((m.group(1), cl))
+            elif key == "assert_before":
+                m = re.match(r"(\S+)\s+(.*)$", text.strip(), re.S)
+                cl = _clause("assert", m.group(2), fc.tags, ln)
+                fc.asserts_before.append((m.group(1), cl))
             elif key == "proof_after":
                 m = re.match(r"(\S+)\s+(.*)$", text.strip(), re.S)
                 fc.proofs_after.append((m.group(1), m.group(2)))
